@@ -12,9 +12,9 @@ OBLIGATIONS = [
        bound='one or two records per cell; 32-bit layer/datatype, coordinates and sizes within 2^20; grid = 1 (real 1.0); integer/delta/real/string codecs as typed tokens (C19 proves the codecs)',
        variants=[{'ELEM': e} for e in (0, 1)], unwind=20, timeout=400, mem_gb=12, nvec=5),
     Ob('reader_records_more', 'C04/rd_oas.c', [RO], ir='ni', stubs=TOKSTUBS, defines={'RC': 0, 'REFL': 0}, wrap_files=True,
-       what='read_oas on spec-encoded records (token stream): POLYGON with a general point list, PLACEMENT by name with each rotation code and the reflection bit, TEXT with inline string',
-       bound='one record per cell; values within 2^20 (polygon: 2^10)',
-       variants=[{'ELEM': 4}, {'ELEM': 2, 'LIM': 64}] + [{'ELEM': 3, 'RC': r, 'REFL': f} for r in range(4) for f in (0, 1)] + [{'ELEM': 5, 'REC': r, 'VERT': v, 'LIM': 64} for r in (23, 24, 25) for v in (0, 1)] + [{'ELEM': 6, 'CT': t, 'LIM': 64} for t in range(26)], unwind=20, timeout=400, mem_gb=12, nvec=5),
+       what='read_oas on spec-encoded records (token stream): POLYGON with a general point list, PLACEMENT by name with each rotation code and the reflection bit, TEXT with inline string, TRAPEZOID (records 23/24/25, both orientations) and all 26 CTRAPEZOID types against reference vertex tables, a CTRAPEZOID that takes type / width / height / layer / datatype from the modal variables in XYRELATIVE mode, a RECTANGLE with a repetition followed by one whose repetition field re-uses it (type 0)',
+       bound='one or two records per cell; values within 2^20 (POLYGON / TRAPEZOID / CTRAPEZOID geometry: +-64)',
+       variants=[{'ELEM': 4}, {'ELEM': 2, 'LIM': 64}] + [{'ELEM': 3, 'RC': r, 'REFL': f} for r in range(4) for f in (0, 1)] + [{'ELEM': 5, 'REC': r, 'VERT': v, 'LIM': 64} for r in (23, 24, 25) for v in (0, 1)] + [{'ELEM': 6, 'CT': t, 'LIM': 64} for t in range(26)] + [{'ELEM': 15, 'CT': t, 'LIM': 64} for t in (0, 13, 20, 25)] + [{'ELEM': 16}], unwind=20, timeout=400, mem_gb=12, nvec=5),
     Ob('reader_properties', 'C04/rd_oas.c', [RO], ir='ni', stubs=TOKSTUBS, defines={'RC': 0, 'REFL': 0, 'ELEM': 7}, wrap_files=True,
        what='read_oas on a RECTANGLE followed by two PROPERTY records: inline name, explicit value list [unsigned integer, PROPSTRING reference], then re-use of name and value list from the modal variables (PROPERTY with V=1 / LAST_PROPERTY), the PROPSTRING defined afterwards: both properties carry the name and [the integer - still an integer -, the referenced string], in order',
        bound='one element; two properties with two values (reference types 13 / 14 / 15, re-use by record 28 with V = 1 or by record 29), or one property with four values named through a PROPNAME table; integers 64 bit, real any bits, string byte arbitrary',
@@ -26,13 +26,13 @@ OBLIGATIONS = [
        variants=[{'RTYPE': 1, 'A': a, 'B': b} for (a, b) in ((2, 2), (3, 2))] + [{'RTYPE': t, 'A': a} for t in (2, 3, 9) for a in (2, 3)] + [{'RTYPE': 8, 'A': a, 'B': b} for (a, b) in ((2, 2), (2, 3))]
                 + [{'RTYPE': t, 'A': a} for t in (4, 5, 6, 7, 10, 11) for a in (2, 3, 4)], unwind=12, timeout=600, mem_gb=10, nvec=60),
     Ob('reader_path', 'C04/rd_oas.c', [RO], ir='ni', stubs=TOKSTUBS, defines={'RC': 0, 'REFL': 0, 'ELEM': 8, 'LIM': 64}, wrap_files=True,
-       what='read_oas on a PATH record: half-width, each extension scheme (flush / half-width / explicit signed extension per end), a point list of two deltas (Manhattan 2-deltas or general g-deltas), position: loads as one simple path whose spine is the position plus the running sum of the deltas, with the given half-width at every point and the end style the scheme denotes',
+       what='read_oas on a PATH record: half-width, each extension scheme (flush / half-width / explicit signed extension per end), a point list of two deltas (Manhattan 2-deltas or general g-deltas), position: loads as one simple path whose spine is the position plus the running sum of the deltas, with the given half-width at every point and the end style the scheme denotes; a second PATH that gives only a new half-width and position takes extensions (as values), point list, layer and datatype from the modal variables',
        bound='one PATH per cell; values within +-64 (bit-precise doubles), 32-bit layer / datatype; extension schemes 0x05, 0x0A, 0x0F, 0x07, 0x0D',
-       variants=[{'EXT': e, 'PLT': t} for e in (0x05, 0x0A, 0x0F) for t in (2, 4)] + [{'EXT': 0x07, 'PLT': 4}, {'EXT': 0x0D, 'PLT': 2}], unwind=20, timeout=900, mem_gb=12, mem_est_gb=6, nvec=20),
+       variants=[{'EXT': e, 'PLT': t} for e in (0x05, 0x0A, 0x0F) for t in (2, 4)] + [{'EXT': 0x07, 'PLT': 4}, {'EXT': 0x0D, 'PLT': 2}, {'ELEM': 13}], unwind=20, timeout=900, mem_gb=12, mem_est_gb=6, nvec=20),
     Ob('reader_tables_and_modes', 'C04/rd_oas.c', [RO], ir='ni', stubs=TOKSTUBS, defines={'RC': 0, 'REFL': 0, 'TAB': 0}, wrap_files=True,
-       what='read_oas: cells, label text and placement targets given through CELLNAME / TEXTSTRING tables that follow the cells (implicit numbering, or explicit numbers out of order), resolved at END; PLACEMENT with real magnification and angle (record 18); XYRELATIVE / XYABSOLUTE for TEXT and PLACEMENT with text string, text layer/type and placement cell re-used from the modal variables',
+       what='read_oas: cells, label text and placement targets given through CELLNAME / TEXTSTRING tables that follow the cells (implicit numbering, or explicit numbers out of order), resolved at END; PLACEMENT with real magnification and angle (record 18); XYRELATIVE / XYABSOLUTE for TEXT and PLACEMENT with text string, text layer/type and placement cell re-used from the modal variables; the xy-mode itself is reset to absolute by every CELL record',
        bound='two cells, one to three labels / references; positions within 2^20; magnification: every non-NaN double; angles 0, 90, 270, 45, -30 degrees',
-       variants=[{'ELEM': 9, 'TAB': t, 'RC': r, 'REFL': f} for t in (0, 1) for (r, f) in ((0, 0), (3, 1))] + [{'ELEM': 10, 'REFL': f, 'ANGV': a} for (f, a) in ((0, 0), (0, 90), (1, 270), (1, 45), (0, -30))] + [{'ELEM': 11}], unwind=20, timeout=600, mem_gb=12, nvec=10),
+       variants=[{'ELEM': 9, 'TAB': t, 'RC': r, 'REFL': f} for t in (0, 1) for (r, f) in ((0, 0), (3, 1))] + [{'ELEM': 10, 'REFL': f, 'ANGV': a} for (f, a) in ((0, 0), (0, 90), (1, 270), (1, 45), (0, -30))] + [{'ELEM': 11}, {'ELEM': 14}], unwind=20, timeout=600, mem_gb=12, nvec=10),
 ]
 BOUNDS = 'one cell, one or two RECTANGLE records; all field values symbolic within 2^20 (layer/datatype full 32 bits)'
 OUTSIDE = 'every other record kind: POLYGON with a symbolic point list (no verdict in 400 s), PLACEMENT and TEXT (memory blow-up > 11 GB in the END-of-file name resolution), PATH, TRAPEZOID, CTRAPEZOID, CIRCLE, PROPERTY, CBLOCK, name tables; the whole writer direction; harness variants ELEM 2..4 are kept in harness/C04/rd_oas.c for future engines but are not run'
